@@ -129,6 +129,46 @@ def account(ctx, s, label, cfg):
             ctx.violation(what, {"kind": "staticfs-vectors", "cfg": cfg, "mismatches": ms}, dev=dev)
 
 
+def _twin_routes(ctx, thorough, binpath, scratch):
+    """Several `directory` routes sharing ONE cache-enabled AppState (spec/static/TwinRoutes.tla): every request sequence
+    of length <= 3 (thorough 4) over 4 routes (two directories, two hosts) x 5 relative paths, as TLC enumerates them,
+    replayed on the real directory_handler; each answer must be the file of the route's own directory, intact."""
+    r = run_tlc("TwinRoutes.tla", "MC_TwinRoutes.cfg", D, workers=4, coverage=True, timeout=900, work_id="c06")
+    ctx.add_tlc("twin routes over one cache, Dev={}: Inv_Inside, Inv_Intact", r)
+    ctx.require_tlc_ok("MC_TwinRoutes.cfg", r)
+    ctx.require_cover("MC_TwinRoutes.cfg", r, ["Request"])
+    for cfg, inv in (("MC_TwinRoutes_dev_RouteRelativeKey.cfg", "Inv_Inside"), ("MC_TwinRoutes_dev_HostlessKey.cfg", "Inv_Inside"),
+                     ("MC_TwinRoutes_wit_hit.cfg", "Wit_NoHit"), ("MC_TwinRoutes_wit_twin.cfg", "Wit_NoTwin")):
+        v = run_tlc("TwinRoutes.tla", cfg, D, workers=1, timeout=300, work_id="c06")
+        ctx.add_tlc("twin routes: %s must violate %s" % (cfg, inv), v)
+        if v.violation != "invariant" or v.violated_name != inv:
+            raise vlib.ToolError("model lost sensitivity: %s no longer violates %s (got %s %s)" % (cfg, inv, v.violation, v.violated_name))
+    g = run_tlc("TwinRoutes.tla", "Gen_TwinRoutes_thorough.cfg" if thorough else "Gen_TwinRoutes.cfg", D, workers=4, timeout=1800,
+                work_id="c06", heap="6g")
+    beh = [x for x in g.prints if isinstance(x, dict) and "twin" in x]
+    if g.violation or len(beh) < 8000:
+        raise vlib.ToolError("twin-route generation failed (%d behaviours): %s" % (len(beh), g.out[-1500:]))
+    ctx.add_tlc("twin routes: behaviours printed for replay", g)
+    p = run_harness(binpath, ["twin", scratch], stdin_data=lines_of(beh), timeout=1800)
+    res = [x for x in parse_jsonl(p.stdout) if x.get("summary") and x.get("mode") == "twin"]
+    if p.returncode != 0 or not res or res[0]["behaviours"] != len(beh):
+        raise vlib.ToolError("staticfs twin failed rc=%s: %s" % (p.returncode, p.stderr[-1500:]))
+    s = res[0]
+    if s["expected_hits"] == 0:
+        raise vlib.ToolError("vacuity guard: no twin-route behaviour expects a cache hit")
+    ctx.cov["evaluations"] += s["requests"]
+    ctx.cov["traces_validated_against_impl"] += s["behaviours"]
+    ctx.add_part("twin directory routes over one cache (TwinRoutes.tla)", behaviours=s["behaviours"], requests=s["requests"],
+                 expected_cache_hits=s["expected_hits"], mismatches=s["mismatches"],
+                 answered_from_other_directory=s["answered_from_other_directory"])
+    if s["mismatches"]:
+        f = s["first"][0]
+        ctx.violation("directory routes sharing the server's cache: %d of %d request sequences are not answered from the route's own directory "
+                      "(%d answers are another directory's file); first: %s" % (s["mismatches"], s["behaviours"], s["answered_from_other_directory"],
+                                                                                json.dumps(f)[:600]),
+                      {"kind": "staticfs-twin", "behaviours": [x["behaviour"] for x in s["first"]], "got": [x["got"] for x in s["first"]]})
+
+
 def run(tier, replay):
     ctx = Ctx("C06", tier, "model_checking")
     thorough = tier == "thorough"
@@ -164,6 +204,18 @@ def _replay(ctx, binpath, tokio_bin, scratch, replay):
             s = replay_vectors(ctx, bp, scratch, header, vectors, "replay " + which)
             account(ctx, s, "replay " + which, case.get("cfg", ""))
         ctx.cov["distinct_nontrivial"] = max(2, len(vectors))
+    elif case.get("kind") == "staticfs-twin":
+        beh = [{"twin": b} for b in case["behaviours"]]
+        p = run_harness(binpath, ["twin", scratch], stdin_data=lines_of(beh), timeout=600)
+        res = [x for x in parse_jsonl(p.stdout) if x.get("summary") and x.get("mode") == "twin"]
+        if p.returncode != 0 or not res:
+            raise vlib.ToolError("staticfs twin failed rc=%s: %s" % (p.returncode, p.stderr[-1500:]))
+        ctx.cov["evaluations"] += res[0]["requests"]
+        ctx.cov["distinct_nontrivial"] = max(2, len(beh))
+        ctx.sample(res[0])
+        if res[0]["mismatches"]:
+            ctx.violation("directory routes sharing the server's cache: %s" % json.dumps(res[0]["first"][0])[:600],
+                          {"kind": "staticfs-twin", "behaviours": [x["behaviour"] for x in res[0]["first"]], "got": [x["got"] for x in res[0]["first"]]})
     elif case.get("kind") == "staticfs-trace":
         # the recorded requests are sent again to the current tree; TLC judges the new answers
         wpath = os.path.join(scratch, "worlds.ndjson")
@@ -386,6 +438,8 @@ def _run(ctx, thorough, binpath, tokio_bin, scratch, replay):
     ctx.add_tlc("self-test: trace with one answer replaced by the canary must be rejected", t2)
     if t2.violation != "invariant" or t2.violated_name != "AllAgree":
         raise vlib.ToolError("binding self-test failed: a trace claiming the canary was served was accepted")
+
+    _twin_routes(ctx, thorough, binpath, scratch)
 
     ctx.cov["rule"] = ("every request path of <= d segments over the catalogue of spellings (quick: 30 spellings, d=3; thorough: 46/d=3, 20/d=4, "
                        "the property's 18/d=5), each sent to serve_dir and directory_handler under 3 route prefixes and to serve_as_file_path in 3 worlds; "
